@@ -244,9 +244,23 @@ func (rb *ResponseBuffer) CopyHeader() {
 // In local testing with the templates directive, req/sec were improved
 // from ~8,200 to ~9,600 on templated files by ensuring that this type
 // implements io.ReaderFrom.
+//
+// Like net/http, ReadFrom writes the implicit header only together with
+// the first bytes of the body: a source that turns out to be empty leaves
+// the response untouched, so that the handler can still set a status.
 func (rb *ResponseBuffer) ReadFrom(src io.Reader) (int64, error) {
 	if !rb.wroteHeader {
-		rb.WriteHeader(http.StatusOK)
+		// copy the beginning of src through Write, which writes the
+		// header (and so decides about buffering) as soon as there is
+		// something to write; the rest takes the paths below.
+		buf := respBufPool.Get().([]byte)
+		n, err := io.CopyBuffer(struct{ io.Writer }{rb}, io.LimitReader(src, int64(len(buf))), buf)
+		respBufPool.Put(buf)
+		if err != nil || n < int64(len(buf)) {
+			return n, err
+		}
+		m, err := rb.ReadFrom(src)
+		return n + m, err
 	}
 
 	if rb.stream {
